@@ -6,6 +6,11 @@ VERIF = os.path.dirname(os.path.dirname(os.path.abspath(__file__)))
 ALL = ["C%02d" % i for i in range(1, 21)]
 
 CLAIMED = {
+ "C18": dict(
+   technique="TLA+ spec DialTarget.tla (the dial-target decision table written from the property, TableSane invariant) enumerated exhaustively by TLC; every input combination concretised to several sniffed strings and run through ChooseDialTarget of a real ControlPlane with DNS knowledge / real-domain caches populated",
+   text="TLC enumerates the full product of dial modes x outbound kinds x destinations x sniffed-value classes x knowledge states (648 states) and emits the required target shape, dialIp and reroute obligations; the harness builds the corresponding control plane state and compares ChooseDialTarget's result, plus an independent host:port well-formedness check of every target.",
+   note="Knowledge states are injected into the controller's knowledge map / real-domain sets; TTL expiry of DNS knowledge is not driven. Trusted: TLC.",
+   design="§3 C18"),
  "C16": dict(
    technique="TLA+ spec Health.tla (per node x health domain alive flag and failure counters, per-address death-transition counter with escalation, reload muting; Thresholds invariant and DeathRule / ReviveRule / MutedRule action properties) model-checked with TLC; simulated histories replayed through the production report/check entry points of real Dialers registered in real AliveDialerSets with an independent oracle of the documented thresholds",
    text="TLC checks over all histories of length 5 (2 nodes sharing a proxy address, 4 domains, real thresholds 1/3/10/50 reached through failure bursts of size 1 and threshold-1) that death happens exactly at a threshold, a forced report or the 3-death escalation, that revivals clear the counts and that muted failures change nothing. Histories of length 14 are replayed on real Dialers through check(), ReportUnavailable(+Transactional/Forced), ReportAvailableTraffic and Begin/EndReloadProxyFailureSuppression; after every step all six domains of both nodes, the transition-callback sequence, the per-domain group membership and the group's connectivity callback (kernel bit) are compared with the documented behaviour. This found the data-UDP connectivity bit never being set again (repaired by a fix: commit).",
